@@ -722,6 +722,9 @@ func (ev *SpecEnv) callExpr(x *ast.CallExpr) (Val, types.Type) {
 			}
 			want := strArg(3)
 			got := strings.TrimPrefix(v, "func:")
+			if at := strings.Index(got, "@"); at >= 0 {
+				got = got[:at] // name@file:line
+			}
 			return Scalar{BoolC(got == want || strings.HasSuffix(got, "/"+want))}, types.Typ[types.Bool]
 		}
 	case "beval":
